@@ -27,7 +27,8 @@ Definition view_of (g : gstate) : reg_view :=
 
 (* ---------- history cases ---------- *)
 Definition obs := (nat * nat * nat)%type.      (* registry-view id, numpy state token, random state token *)
-(* kind (0 find_cuts, 1 generate(inf), 2 from_instruction, 4 generate(finite) as interference),
+(* kind (0 find_cuts, 1 generate(inf), 2 from_instruction, 5 generate(finite num_samples, all-exact or refused),
+         4 generate(finite, sampled) as interference),
    (argument id, gate_lo, wire_lo), seed, observed before, observed after, result id *)
 Definition evt := (nat * (nat * bool * bool) * option Z * obs * obs * nat)%type.
 Definition hcase := (list (nat * reg_view) * list evt * list evt)%type.
@@ -50,7 +51,7 @@ Definition O_of (fresh : list evt) : oracles :=
       (fun a => snd (fst a)) (fun a => snd a)
       (fun _ _ _ a t => lookup_rid fresh 0 (fst (fst a)) t)
       (fun _ => 1%Q) (fun _ _ => false) (fun s _ _ => s)
-      (fun _ a _ => lookup_rid fresh 1 a None)
+      (fun _ a ns => lookup_rid fresh (match ns with NInf => 1 | NFin _ => 5 end) a None)
       (fun _ _ _ _ => 4999)
       (fun _ a => lookup_rid fresh 2 a None).
 
@@ -74,11 +75,12 @@ Fixpoint walk (views : list (nat * reg_view)) (fresh : list evt) (g : gstate) (e
       let g1 := estep O g (Perturb npb pyb) in
       obs_matches views before g1 &&
       match kind with
-      | 0 | 1 | 2 =>
+      | 0 | 1 | 2 | 5 =>
           let c : call O :=
             match kind with
             | 0 => FindCuts O a (match seed with Some z => Seeded z | None => Unseeded None end)
             | 1 => GenExact O (fst (fst a))
+            | 5 => Gen O (fst (fst a)) (NFin 1)      (* the argument id identifies num_samples; the instance is all-exact *)
             | _ => FromInstruction O (fst (fst a))
             end in
           let gr := step O g1 c in
